@@ -621,6 +621,10 @@ struct State {
     fault: Option<Fault>,
     fault_counts: HashMap<(OpKind, PathClass), u64>,
     fault_fired: u64,
+    /// a failing `write` applies the first half of its bytes before it reports the error
+    short_writes: bool,
+    /// set by `enter2` for the call in progress
+    short_write_now: bool,
     fault_first_fired_at: Option<u64>,
     outage: bool,
     strict_unlink: bool,
@@ -721,6 +725,10 @@ impl SimFs {
         st.outage = false;
     }
     /// (times fired, op index of the first firing)
+    /// Failing writes become short writes: half of the bytes are written before the error.
+    pub fn set_short_writes(&self, on: bool) {
+        self.shared.state.lock().short_writes = on;
+    }
     pub fn fault_fired(&self) -> (u64, Option<u64>) {
         let st = self.shared.state.lock();
         (st.fault_fired, st.fault_first_fired_at)
@@ -789,6 +797,9 @@ impl SimFs {
                     }
                     if fault.after_effect && kind.is_mutating() {
                         after = true;
+                    } else if st.short_writes && kind == OpKind::Write {
+                        st.short_write_now = true;
+                        after = true;
                     } else {
                         return Err(injected());
                     }
@@ -804,6 +815,15 @@ impl SimFs {
         self.maybe_delay(kind, class);
         let mut st = self.shared.state.lock();
         let fail_after_effect = SimFs::enter2(&mut st, kind, class)?;
+        let op = if std::mem::take(&mut st.short_write_now) {
+            // a short write: the first half of the bytes reach the file, then the call fails
+            match op {
+                JOp::Write { inode, offset, data, path } => JOp::Write { inode, offset, data: Arc::new(data[..data.len() / 2].to_vec()), path },
+                other => other,
+            }
+        } else {
+            op
+        };
         if let Err(e) = st.core.check(&op) {
             if e.kind() == io::ErrorKind::NotFound {
                 if let Some(n) = st.removed.get(op.path()).copied() {
